@@ -303,6 +303,9 @@ func (e *Engine) contractWrites(c *Contract, ws *writeSet, sig *types.Signature,
 			ws.why = append(ws.why, "modifies * of "+c.Key)
 		case m == "big":
 			ws.keys["BigVal"] = true
+		case strings.HasPrefix(m, "* except "):
+			ws.all = true
+			ws.why = append(ws.why, "modifies "+m+" of "+c.Key)
 		case m == "ghosts":
 			for name := range e.db.Ghosts {
 				ws.keys["G:"+name] = true
